@@ -100,6 +100,10 @@ def last_library_frame(e):
     for fr in traceback.extract_tb(e.__traceback__):
         if fr.filename.endswith("symbolic_mpo.py") or fr.filename.endswith("mpo.py"):
             name = fr.name
+            if fr.name == "swap_site" and "len(o) > 0" in (fr.line or ""):
+                # an old bond operator comes out of the re-decomposition without any entry (seen for operators with the qr
+                # algorithm in their history): a class of its own, not the bond-count assertion of the repaired defect D36
+                name = "swap_site:empty-bond-operator"
     return name
 
 
